@@ -70,7 +70,7 @@ func runScripts(args []string) error {
 	// in-call loops are covered by preflight): when one object has been running for hangLimit, or the heap explodes,
 	// the recording is closed - finished objects as they are, the unfinished ones marked "hung" (Trace_Wire reports
 	// them as DRIFT: no verdict, but within the time budget) - and the process exits.
-	hangLimit := 60 * time.Second
+	hangLimit := 30 * time.Second
 	if v, err := strconv.Atoi(os.Getenv("VERIF_WIRE_HANG_S")); err == nil && v > 0 {
 		hangLimit = time.Duration(v) * time.Second
 	}
@@ -147,6 +147,7 @@ func runScripts(args []string) error {
 				}
 			}
 			if reason != "" {
+				time.Sleep(time.Second) // healthy objects in flight finish in milliseconds: only the stuck ones stay unfinished
 				if err := closeOut(reason); err != nil {
 					return err
 				}
